@@ -146,7 +146,7 @@ def run(rep, tier, seed):
     lr = gen(rng, tier, "LR", "LALR_PAGER", n) + gen(rng, tier, "LR", "LALR", n // 2)
     glr = gen(rng, tier, "GLR", "LALR_RN", n // 2)
     for c in glr:
-        c.max_trees = 1
+        c.max_trees = 0      # parse-only: Forest::solutions() is exponential on highly ambiguous inputs and is not what C12 is about
     lf.add_histories(rng, lr)
     lf.run_cases(lr, extra_requests=extra_requests)
     lf.add_histories(rng, glr)
@@ -248,7 +248,7 @@ def replay(rep, path):
                 [(algo, "0", inp, {"toks": toks, "expect": expected_error(g, toks), "offs": offs, "end": end})], gram=g)
     lf.apply_replay_history(c, p)
     if algo == "GLR":
-        c.max_trees = 1
+        c.max_trees = 0      # parse-only: Forest::solutions() is exponential on highly ambiguous inputs and is not what C12 is about
         lf.run_cases([c], model=False)
         check(rep, [], [c], True)
     else:
